@@ -345,6 +345,9 @@ def show(e: E, ind=1) -> str:
         return f"-({show(e.args[0], ind)})"
     if o == "if":
         c, a, b = e.args
+        if b.op == "if" and getattr(b, "extra", None) == "chain":
+            # an `if` directly in the else position marked as a chain link is written `else if` (same meaning)
+            return f"if {show(c, ind)} {{\n{sp}  {show(a, ind + 1)}\n{sp}}} else {show(b, ind)}"
         return f"if {show(c, ind)} {{\n{sp}  {show(a, ind + 1)}\n{sp}}} else {{\n{sp}  {show(b, ind + 1)}\n{sp}}}"
     if o == "when":
         scrut = e.args[0]
